@@ -261,3 +261,17 @@ M('C09', 'fit-circle-returns-initial', CIF, "        Ok(result.circle)\n    } el
 M('C09', 'three-points-no-collinear-check', CIF, "        if det.abs() < 1.0e-6 {\n            Err(\"Points are collinear\".into())", "        if det.abs() < 0.0 {\n            Err(\"Points are collinear\".into())", 'from_3_points:collinear')
 M('C09', 'ransac-unseeded', CIF, "        let mut rng = StdRng::seed_from_u64(24601);", "        let mut rng = StdRng::seed_from_u64(rand::random::<u64>());", 'ransac:seeded')
 M('C09', 'ransac-accept-equal', CIF, "                if count > best_count {", "                if count >= best_count {", 'ransac:improve-only')
+
+# ---------------------------------------------------------------- C04
+M('C04', 'trim-back-wrong-end', C2F, "        self.between_lengths(0.0, self.length() - length)", "        self.between_lengths(length, self.length())", 'trim_back')
+M('C04', 'split-open-gap', C2F, "            let b = self.between_lengths(length, self.length()).ok_or(format!(", "            let b = self.between_lengths(length + self.tol, self.length()).ok_or(format!(", 'split_open_at_length:pieces')
+M('C04', 'split-closed-same-piece-twice', C2F, "            let b = self.between_lengths(length1, length0).ok_or(format!(", "            let b = self.between_lengths(length0, length1).ok_or(format!(", 'split_closed_at_lengths:pieces')
+M('C04', 'between-allows-reversed-open', C2F, "        if (l1 - l0).abs() < self.tol || (!self.is_closed && wrap) {", "        if (l1 - l0).abs() < self.tol || (!self.is_closed && wrap && l0 < 0.0) {", 'between_lengths:ill-posed')
+M('C04', 'between-no-tol-check', C2F, "        if (l1 - l0).abs() < self.tol || (!self.is_closed && wrap) {", "        if (!self.is_closed && wrap) {", 'between_lengths:ill-posed')
+M('C04', 'between-last-index-closed', C2F, "        let last_index = if self.is_closed {\n            self.count() - 2", "        let last_index = if self.is_closed {\n            self.count() - 1", 'between_lengths:last_index')
+M('C04', 'between-end-always-appended', C2F, "            if dist(&end.point, points.last().unwrap()) > self.tol {\n                points.push(end.point);\n            }", "            points.push(end.point);", 'between_lengths:end-point')
+M('C04', 'between-wrap-not-cleared', C2F, "                        wrap = false;\n                        working = self.at_front();", "                        working = self.at_front();", 'between_lengths:walk')
+M('C04', 'between-force-closed', C2F, "            if let Ok(c) = Curve2::from_points(&points, self.tol, false) {", "            if let Ok(c) = Curve2::from_points(&points, self.tol, self.is_closed) {", 'between_lengths:rebuild')
+M('C04', 'control-swapped-call', C2F, "        if lower < control && control < upper {\n            self.between_lengths(lower, upper)", "        if lower < control && control < upper {\n            self.between_lengths(upper, lower)", 'between_lengths_by_control')
+M('C04', 'control-open-wraps', C2F, "        } else if control < lower || control > upper && self.is_closed {", "        } else if control < lower || control > upper {", 'between_lengths_by_control')
+M('C04', 'reversed-twice', C2F, "        let mut points = self.clone_points();\n        points.reverse();\n        Curve2::from_points(&points, self.tol, false).unwrap()", "        let mut points = self.clone_points();\n        points.reverse();\n        points.reverse();\n        Curve2::from_points(&points, self.tol, false).unwrap()", 'reversed')
